@@ -361,13 +361,82 @@ def usable_source(kind, nl):
     return nl != "bare" or kind in ("list", "tuple", "iter", "gen")
 
 
-def run_real(old_lines, script_lines, kind, typ):
+# ------------------------------------------------------------------ public entry points (API surface)
+# api = "parser/re_cmd/applier/patches":
+#   parser   pfes  patches_from_ed_script            alias patchesFromEdScript (function_deprecated_by)
+#   re_cmd   auto  not given (detected from the first line)   pos / kw  the standard pattern of the
+#            script's type given explicitly (positionally / by keyword, `source` by keyword too)
+#            ws    an explicit pattern that tolerates blanks after the command letter; the command
+#                  lines of the script then carry such blanks (same abstract case, same verdict)
+#   applier  pl    patch_lines     alias patchLines     kw  patch_lines(lines=..., patches=...)
+#   patches  gen   the parser's generator as it is    list / tuple / iter  materialised first
+DEFAULT_API = "pfes/auto/pl/gen"
+_STD = r"^(\d+)(?:,(\d+))?([acd])$"
+_WS = r"^(\d+)(?:,(\d+))?([acd])[ \t]*$"
+_PATTERNS = {}
+
+
+def _pattern(typ, ws):
+    key = (typ, ws)
+    if key not in _PATTERNS:
+        raw = _WS if ws else _STD
+        _PATTERNS[key] = re.compile(raw if typ == "str" else raw.encode("ascii"))
+    return _PATTERNS[key]
+
+
+def pick_api(hc, allow_ws=True):
+    """rotating sample of entry-point variants (half of the calls use the primary one)"""
+    if hc.random() < 0.5:
+        return DEFAULT_API
+    return "/".join((hc.choice(("pfes", "pfes", "alias")),
+                     hc.choice(("auto", "pos", "kw", "ws") if allow_ws else ("auto", "pos", "kw")),
+                     hc.choice(("pl", "pl", "alias", "kw")),
+                     hc.choice(("gen", "gen", "list", "tuple", "iter"))))
+
+
+def pad_commands(script_lines, toks, typ, hc):
+    """blanks after the command letter of every command line (for the `ws` pattern)"""
+    out = list(script_lines)
+    for i, tk in enumerate(toks):
+        if len(tk) == 4:
+            pad = hc.choice((" ", "\t", "  "))
+            pad = pad if typ == "str" else pad.encode()
+            nl = "\n" if typ == "str" else b"\n"
+            out[i] = out[i][:-1] + pad + nl if out[i].endswith(nl) else out[i] + pad
+    return out
+
+
+def run_real(old_lines, script_lines, kind, typ, api=None):
     """-> (outcome, resulting list): outcome 'ok' / 'ValueError' / 'EXC:<type>'.  Exceptions of the
     code under test are observations."""
-    from debian.debian_support import patch_lines, patches_from_ed_script
+    import warnings
+    import debian.debian_support as ds
+    parser, recmd, applier, form = (api or DEFAULT_API).split("/")
     lines = list(old_lines)
     try:
-        patch_lines(lines, patches_from_ed_script(make_source(script_lines, kind, typ)))
+        with warnings.catch_warnings():
+            warnings.simplefilter("ignore", DeprecationWarning)
+            parse = ds.patches_from_ed_script if parser == "pfes" else ds.patchesFromEdScript
+            apply_ = ds.patchLines if applier == "alias" else ds.patch_lines
+            src = make_source(script_lines, kind, typ)
+            if recmd == "auto":
+                patches = parse(src)
+            elif recmd == "pos":
+                patches = parse(src, _pattern(typ, False))
+            elif recmd == "kw":
+                patches = parse(source=src, re_cmd=_pattern(typ, False))
+            else:
+                patches = parse(src, re_cmd=_pattern(typ, True))
+            if form == "list":
+                patches = list(patches)
+            elif form == "tuple":
+                patches = tuple(patches)
+            elif form == "iter":
+                patches = iter(list(patches))
+            if applier == "kw":
+                apply_(lines=lines, patches=patches)
+            else:
+                apply_(lines, patches)
     except ValueError:
         return "ValueError", None
     except Exception as e:          # noqa: BLE001 -- observation
@@ -398,8 +467,13 @@ def where_differ(got, expected):
     return " (%d lines instead of %d)" % (len(got), len(expected))
 
 
-def check_apply(old_lines, script_lines, expected, kind, typ):
-    res, got = run_real(old_lines, script_lines, kind, typ)
+def _via(kind, api):
+    return kind if api in (None, DEFAULT_API) else "%s; entry points %s" % (kind, api)
+
+
+def check_apply(old_lines, script_lines, expected, kind, typ, api=None):
+    res, got = run_real(old_lines, script_lines, kind, typ, api)
+    kind = _via(kind, api)
     if res != "ok":
         return "script %s on %s (%s source): %s, specification says result %s" % (
             show(script_lines), show(old_lines), kind, res.replace("EXC:", "raised "), show(expected))
@@ -409,8 +483,9 @@ def check_apply(old_lines, script_lines, expected, kind, typ):
     return None
 
 
-def check_raises(old_lines, script_lines, kind, typ):
-    res, got = run_real(old_lines, script_lines, kind, typ)
+def check_raises(old_lines, script_lines, kind, typ, api=None):
+    res, got = run_real(old_lines, script_lines, kind, typ, api)
+    kind = _via(kind, api)
     if res != "ValueError":
         return "corrupted script %s (%s source): %s, specification says ValueError" % (
             show(script_lines), kind, ("accepted, result %s" % show(got)) if res == "ok" else res.replace("EXC:", "raised "))
